@@ -4,9 +4,9 @@ package main
 
 import (
 	"encoding/json"
-	"go/ast"
 	"flag"
 	"fmt"
+	"go/ast"
 	"os"
 	"path/filepath"
 	"sort"
@@ -109,12 +109,12 @@ func verifDirDefault() string {
 }
 
 type violationsDoc struct {
-	Property   string       `json:"property"`
-	Tier       string       `json:"tier"`
-	Repo       string       `json:"repo"`
-	Rules      []string     `json:"rules"`
-	Violations []Obligation `json:"violations"`
-	Undecided  []Undecided  `json:"undecided,omitempty"`
+	Property   string            `json:"property"`
+	Tier       string            `json:"tier"`
+	Repo       string            `json:"repo"`
+	Rules      []string          `json:"rules"`
+	Violations []Obligation      `json:"violations"`
+	Undecided  []Undecided       `json:"undecided,omitempty"`
 	RuleDocs   map[string]string `json:"rule_docs"`
 }
 
@@ -256,15 +256,15 @@ func cmdCheck(args []string) int {
 		"rule": "one obligation per (rule, construct) pair found in the current tree by enumerating every matching function, " +
 			"call site, path or table row; an obligation is non-trivial when the rule had at least one site/path to examine; " +
 			"rules with too few sites report UNDECIDED instead of passing vacuously",
-		"samples":         samples,
-		"rules":           ruleDocs,
-		"per_rule":        ruleSummary,
-		"units":           p.Units,
-		"exhaustive":      true,
-		"checker_cmd":     "bin/jsonsa check -property " + *prop + " -tier " + *tier + " -repo " + *repo,
-		"trusted_base":    []string{"go/types, go/cfg, go/packages (x/tools v0.50.0)", "go1.26.8 toolchain", "the rule definitions in /verif/sa"},
-		"undecided":       rep.Undecided,
-		"build_config":    "linux/amd64, default build (files guarded by !goexperiment.jsonv2 || !go1.25); the goexperiment.jsonv2 configuration only re-exports the standard library and is out of scope",
+		"samples":      samples,
+		"rules":        ruleDocs,
+		"per_rule":     ruleSummary,
+		"units":        p.Units,
+		"exhaustive":   true,
+		"checker_cmd":  "bin/jsonsa check -property " + *prop + " -tier " + *tier + " -repo " + *repo,
+		"trusted_base": []string{"go/types, go/cfg, go/packages (x/tools v0.50.0)", "go1.26.8 toolchain", "the rule definitions in /verif/sa"},
+		"undecided":    rep.Undecided,
+		"build_config": "linux/amd64, default build (files guarded by !goexperiment.jsonv2 || !go1.25); the goexperiment.jsonv2 configuration only re-exports the standard library and is out of scope",
 	}
 	if adequacy != nil {
 		cov["adequacy_mutants"] = adequacy
